@@ -201,6 +201,13 @@ EDGE = {
     'lowercase-strings': [b'10 PRINT "MiXed case":REM Mixed Case', b'20 A$="don\'t"'],
 }
 
+# programs whose tokenised image length sweeps across the 256-byte cassette block size
+# (two REM lines of k1+k2 filler bytes: image = k1 + k2 + 16 bytes, give or take the format's EOF byte)
+for _n in list(range(250, 263)) + list(range(506, 519)):
+    _k1 = (_n - 16) // 2
+    _k2 = _n - 16 - _k1
+    EDGE['size-%03d' % _n] = [b'10 REM ' + b's' * _k1, b'20 REM ' + b't' * _k2]
+
 TOKENISED = {
     'beyond-65529': _tok([(65529, b'\x91 "a"'), (65530, b'\x91 "b"'), (65535, b'\x91 "c"')]),
     'out-of-order': _tok([(30, b'\x91 "c"'), (10, b'\x91 "a"'), (20, b'\x89 \x0e\x1e\x00')]),
